@@ -13,11 +13,11 @@ def run(ctx):
     ok = common.proof_stage(ctx, MODULE)
     rng = ctx.rng
     nh = 60 if ctx.quick() else 2000
-    with envmod.Env() as e:
+    with envmod.Env(dbfile=True) as e:     # file database: persistent daemon loops and two-worker passes need threads
         for i in range(nh):
             hseed = f"{ctx.prop}-{ctx.seed}-h{i}"
             hr = random.Random(hseed)
-            case, p7, p8, log = c07.run_history(ctx, e, hr, hr.randint(10, 35))
+            case, p7, p8, log = c07.run_history(ctx, e, hr, hr.randint(10, 35), conc=True)
             ctx.case(tuple(log), nontrivial=len(log) > 5, sample={"history": log[:25], "tracked_pairs": sorted(case.tracked)} if i == 0 else None)
             ctx.count("history:steps", len(log))
             ctx.count("history:tasks", sum(1 for l in log if l.startswith("task")))
@@ -39,9 +39,9 @@ def replay(ctx, path):
     print(json.dumps({k: d[k] for k in d if k != "history"}, indent=1)[:3000])
     if "hseed" not in d:
         return 1
-    with envmod.Env() as e:
+    with envmod.Env(dbfile=True) as e:
         hr = random.Random(d["hseed"])
-        case, p7, p8, log = c07.run_history(ctx, e, hr, hr.randint(10, 35))
+        case, p7, p8, log = c07.run_history(ctx, e, hr, hr.randint(10, 35), conc=True)
     for l in log:
         print("  ", l[:200])
     for item in p8:
